@@ -36,12 +36,15 @@ struct Flags {
     no_end: bool,
     mr: u32,
     ms: u32,
+    /// apply the threshold setters before every other setter (builder call order, seed C13d)
+    thr_first: bool,
 }
 
 fn parse_flags(v: &Value) -> Flags {
     let mut f = Flags {
         mr: v["mr"].as_u64().unwrap_or(1) as u32,
         ms: v["ms"].as_u64().unwrap_or(1) as u32,
+        thr_first: v["thr_first"].as_bool().unwrap_or(false),
         ..Default::default()
     };
     for name in v["f"].as_str().unwrap_or("").split(',') {
@@ -73,6 +76,10 @@ fn parse_flags(v: &Value) -> Flags {
 
 fn mk_builder(tcs: &[String], f: &Flags) -> RegExpBuilder {
     let mut b = RegExpBuilder::from(tcs);
+    if f.thr_first {
+        b.with_minimum_repetitions(f.mr);
+        b.with_minimum_substring_length(f.ms);
+    }
     if f.d {
         b.with_conversion_of_digits();
     }
@@ -115,8 +122,10 @@ fn mk_builder(tcs: &[String], f: &Flags) -> RegExpBuilder {
     if f.colour {
         b.with_syntax_highlighting();
     }
-    b.with_minimum_repetitions(f.mr);
-    b.with_minimum_substring_length(f.ms);
+    if !f.thr_first {
+        b.with_minimum_repetitions(f.mr);
+        b.with_minimum_substring_length(f.ms);
+    }
     b
 }
 
@@ -980,6 +989,37 @@ fn run_case(case: &Value, eng: &Engine) -> Value {
                 v.insert("find_bad".into(), Value::Array(bad));
                 if !incons.is_empty() {
                     v.insert("engine_inconsistencies".into(), Value::Array(incons));
+                }
+            }
+            // C08, second clause: disabling anchors does not change which strings the body matches in full —
+            // language of this output against the output of the same build with both anchors in place
+            if want_lang && (f.no_start || f.no_end) {
+                let mut g = f.clone();
+                g.no_start = false;
+                g.no_end = false;
+                g.colour = false;
+                match plain_build(&tcs, &g) {
+                    Ok(p2) => {
+                        let j2 = if g.sur { decode_surrogates(&p2) } else { p2.clone() };
+                        match lang_diff(j, &j2) {
+                            Ok(None) => {
+                                v.insert("lang_anchor".into(), json!("eq"));
+                            }
+                            Ok(Some((w, out_accepts))) => {
+                                v.insert(
+                                    "lang_anchor".into(),
+                                    json!({"witness": String::from_utf8_lossy(&w).chars().map(|c| c as u32).collect::<Vec<_>>(),
+                                           "out_accepts": out_accepts, "anchored": cps(&p2)}),
+                                );
+                            }
+                            Err(e) => {
+                                v.insert("lang_anchor".into(), json!({"undecided": e}));
+                            }
+                        }
+                    }
+                    Err(m) => {
+                        v.insert("lang_anchor".into(), json!({"undecided": format!("anchored build panicked: {m}")}));
+                    }
                 }
             }
             // C13 thresholds
